@@ -593,16 +593,15 @@ def _observe_item(item):
 
 
 def run(ctx):
-    rich = not ctx.quick
     total = 0
     sampled = False
-    # (N, argument wraps, last-level sample (0 = all), requested subsets per graph (0 = all), cap on graphs)
-    confs = ctx.pick([(3, '{"list", "call"}', 0, 2, 0), (4, "{}", 0, 1, 0)],
-                     [(3, '{"list", "call"}', 0, 0, 0), (4, '{"list"}', 0, 2, 20000), (5, "{}", 3, 1, 0)])
+    # (N, argument wraps, last-level sample (0 = all), requested subsets per graph (0 = all), cap on graphs, all variants?)
+    confs = ctx.pick([(3, '{"list", "call"}', 0, 2, 0, False), (4, "{}", 0, 1, 0, False)],
+                     [(3, '{"list", "call"}', 0, 0, 0, True), (4, '{"list"}', 0, 2, 12000, False), (5, "{}", 2, 1, 0, False)])
     import dask.core  # noqa: F401 - imported before the worker processes are forked
     import dask.optimization  # noqa: F401
     xval = []
-    for n, wraps, last, per, cap in confs:
+    for n, wraps, last, per, cap, rich in confs:
         spec, cfg = ctx.model(ctx.spec("graph", "GraphOptMC.tla"), {"N": n, "Wraps": TLA(wraps), "Last": last}, invariants=INVS)
         r = ctx.tlc(spec, cfg, dump=True, label="design+cases:N=%d,wraps=%s,last=%d" % (n, wraps, last), timeout=3000,
                     seed=ctx.seed + 1, **TLC_OPTS)
@@ -617,7 +616,7 @@ def run(ctx):
         xval += kept + broken
         del cases
     # code -> spec: random larger graphs, decided by TLC alone
-    items = random_items(ctx, ctx.pick(12000, 60000), ctx.pick([5, 6, 7, 8, 9], [5, 6, 7, 8, 9, 10, 12, 14]))
+    items = random_items(ctx, ctx.pick(12000, 40000), ctx.pick([5, 6, 7, 8, 9], [5, 6, 7, 8, 9, 10, 12, 14]))
     rnd = []
     for item, o in pmap(_observe_item, items, chunk=32):
         if "skip" in o:
